@@ -319,8 +319,75 @@ def _light(c):
     return d
 
 
+def bounds_stage(run, driver, n):
+    """`_generate_nonreporting_bounds` on frames of outstanding units (expected vote 0 ... 130 percent, partial margins in [-1, 1],
+    turnout factors >= 0, the provider-error setting) against the definitions regenerated from its source (`Gen.C06.*_bound`), and the
+    statement of `source_y_bounds` / `source_z_bounds` on the implementation's output"""
+    import pandas as pd
+
+    C.use_repo()
+    from elexmodel.models.BootstrapElectionModel import BootstrapElectionModel
+
+    rng = run.rng
+    for _ in range(n):
+        eb = rng.choice([0.5, 0.5, 0.1, 0.6, 0.75, 0.0])
+        model = BootstrapElectionModel({"features": ["baseline_normalized_margin"], "percent_expected_vote_error_bound": eb})
+        k = rng.randint(1, 12)
+        pev = [rng.choice([0, 1, 25, 49.5, 50, 50.5, 60, 75, 90, 99, 99.5, 100, 100.5, 104, 110, 130]) for _ in range(k)]
+        y = [rng.choice([-1, 1, 0, rng.randint(-64, 64) / 64]) for _ in range(k)]
+        z = [rng.choice([0, 0.125, 0.5, 1, 1.5, rng.randint(0, 256) / 64]) for _ in range(k)]
+        df = pd.DataFrame({"percent_expected_vote": pev, "results_normalized_margin": y, "turnout_factor": z})
+        if rng.random() < 0.3:
+            df.index = [7 + 3 * j for j in range(k)][::-1]     # the frames need not carry a default index
+        case = {"bounds_stage": True, "percent_expected_vote": pev, "normalized_margin": y, "turnout_factor": z, "error_bound": eb}
+        run.case(case, True)
+        run.count("clip bounds")
+        try:
+            with np.errstate(all="ignore"):
+                yl, yu = model._generate_nonreporting_bounds(df, "results_normalized_margin")
+                zl, zu = model._generate_nonreporting_bounds(df, "turnout_factor")
+        except Exception as ex:
+            run.violation("_generate_nonreporting_bounds raised " + type(ex).__name__, input=case, impl=str(ex)[:200],
+                          predicate="source_y_bounds", signature="C06:bounds-raise")
+            continue
+        lbz, ubz = float(model.z_unobserved_lower_bound), float(model.z_unobserved_upper_bound)
+        bad = None
+        for j in range(k):
+            a, b, c_, d = float(yl[j, 0]), float(yu[j, 0]), float(zl[j, 0]), float(zu[j, 0])
+            if not (-1 - 1e-12 <= a <= y[j] + 1e-12 and y[j] - 1e-12 <= b <= 1 + 1e-12):
+                bad = ("margin clip bounds do not bracket the partial margin inside [-1, 1]", j, [a, b])
+            elif not (c_ >= -1e-12 and c_ <= d + 1e-12):
+                bad = ("turnout-factor clip bounds are negative or out of order", j, [c_, d])
+            if bad:
+                break
+        if bad:
+            run.violation(bad[0], input=case, impl={"row": bad[1], "bounds": bad[2]}, predicate="source_y_bounds / source_z_bounds",
+                          signature="C06:bounds")
+            continue
+        if driver is None:
+            continue
+        ops = []
+        for j in range(k):
+            ops.append({"op": "boot.bounds", "estimand": "y", "pev": C.rat(pev[j]), "obs": C.rat(y[j]), "lb": C.rat(model.y_unobserved_lower_bound),
+                        "ub": C.rat(model.y_unobserved_upper_bound)})
+            ops.append({"op": "boot.bounds", "estimand": "z", "pev": C.rat(pev[j]), "obs": C.rat(z[j]), "lb": C.rat(lbz), "ub": C.rat(ubz),
+                        "eb": C.rat(eb)})
+        outs = driver.run(ops)
+        for j in range(k):
+            my, mz = [C.unrat(x) for x in outs[2 * j]], [C.unrat(x) for x in outs[2 * j + 1]]
+            got = [float(yl[j, 0]), float(yu[j, 0]), float(zl[j, 0]), float(zu[j, 0])]
+            want = [float(v) for v in my + mz]
+            if any(abs(g - w) > 1e-9 * max(1.0, abs(w)) for g, w in zip(got, want)):
+                run.diff("clip bounds of a nonreporting unit: implementation vs the definitions regenerated from its source", input=case,
+                         row=j, impl=got, model=want)
+                break
+        else:
+            run.traces += 1
+
+
 def explore(run, driver, budget):
     run.info["rule"] = RULE
+    bounds_stage(run, driver, {"quick": 60, "thorough": 3000, "search": 400}[budget])
     if budget == "quick":
         rank_grid(run, driver, list(range(2, 400)) + [500, 999, 1000, 2000], [0.5, 0.75, 0.9375, 0.7, 0.9, 0.95, 0.99, 0.1])
         unit_stage(run, driver, 60)
@@ -346,6 +413,10 @@ def replay(run, driver, payload):
     c = payload["input"]
     if c.get("grid") == "ranks":
         rank_grid(run, driver, [c["B"]], [c["alpha"]])
+        return
+    if c.get("bounds_stage") or c.get("api_boot") or c.get("clip_stage"):
+        # the generators are driven by the seed and pass recorded in the replay file (set by main): the same pass is re-run
+        explore(run, driver, run.budget)
         return
     if c.get("stage") == "unit":
         run.info["note"] = "unit-stage replays re-run the generator with the recorded seed"
